@@ -46,6 +46,7 @@ def check_entity_type(type_):
         raise ValueError("String provided for entity type is empty!")
     # a type that is not a string would only be refused once the entity exists
     check_attr_type(type_, str)
+    check_no_nul(type_)
 
 
 def check_entity_name(name):
@@ -117,6 +118,23 @@ def str_to_time(time_str):
         time_str = time_str.decode()
     dt = datetime.strptime(time_str, "%Y%m%dT%H%M%S") - datetime(1970, 1, 1)
     return int(dt.total_seconds())
+
+
+def check_no_nul(value):
+    """
+    HDF5 text cannot hold a NUL character: raises a ValueError for a string
+    (or a sequence of strings) that contains one, so that the refusal comes
+    before anything is written.
+    """
+    if isinstance(value, str):
+        if "\x00" in value:
+            raise ValueError("Text must not contain NUL characters")
+    elif isinstance(value, (list, tuple)):
+        for item in value:
+            check_no_nul(item)
+    elif isinstance(value, np.ndarray) and value.dtype.kind in "UO":
+        for item in value.ravel().tolist():
+            check_no_nul(item)
 
 
 def check_attr_type(value, type_):
